@@ -89,7 +89,7 @@ fn param(s: &mut S, me: &str) -> String {
         29 => "+beI".into(),
         30 => "+imtns-imtns".into(),
         31 => "~&@%+#c0".into(),
-        32 => ["&&&", "~", "@@@@#", "&", "#", "+&pre", "&&pre", "%#c0"][s.pick(8)].into(),
+        32 => ["&&&", "~", "@@@@#", "&", "#", "+&pre", "&&pre", "%#c0", "@&pre", "~&@%+&pre", "%&pre"][s.pick(11)].into(),
         33 => "n0!~u0@10.0.0.1".into(),
         34 => "irc.irc".into(),
         35 => ["LS", "REQ", "END", "LIST", "302", "multi-prefix"][s.pick(6)].into(),
@@ -129,7 +129,7 @@ pub fn fuzz_line(s: &mut S, me: &str) -> (String, String) {
                 } else if *p == "n1" {
                     ["n1", "n0", "gone", "n4", "n4r", "f", "nobody", "n2,n3", "n1,n1"][s.pick(9)].to_string()
                 } else if *p == "#c0" {
-                    ["#c0", "#c1", "&pre", "#nonexistent", "#c0,#c1", "#c0,#c0"][s.pick(6)].to_string()
+                    ["#c0", "#c1", "&pre", "#nonexistent", "#c0,#c1", "#c0,#c0", "@&pre", "+#c0", "%&pre,@#c0", "&pre,#c0"][s.pick(10)].to_string()
                 } else if s.chance(20) {
                     param(s, me)
                 } else {
@@ -222,8 +222,10 @@ fn build_scene(seeds: &[u16]) -> Scene {
         topic: Some("predefined".into()),
         flags: "nt".into(),
         ban: vec!["*!*@192.168.*".into()],
-        operators: vec!["n1".into(), "f".into()],
-        voices: vec!["n2".into()],
+        // (rank lists naming members, connected non-members and nicks that never connect)
+        operators: vec!["n1".into(), "f".into(), "ghost".into()],
+        half_operators: vec!["phantom".into()],
+        voices: vec!["n2".into(), "nobody".into()],
         ..Default::default()
     });
     cfg.max_joins = [None, Some(3)][s.pick(2)];
@@ -285,6 +287,11 @@ fn build_scene(seeds: &[u16]) -> Scene {
             }
             if role == "ircop" {
                 sc.send(f, "OPER op0 operpw0");
+            }
+            // half of the member roles are also on the configured channel (where the configuration
+            // lists the fuzzer as operator)
+            if s.chance(50) {
+                sc.send(f, "JOIN &pre");
             }
             if role == "after-peers-left" {
                 for i in 0..nb {
